@@ -161,14 +161,17 @@ func init() {
 		glb     []string
 		weights map[string]int
 		initial map[string]string
+		values  map[string][]string
 	}
 	focuses := []focus{
-		{"basic-auth", []string{"auth-secret", "auth-realm"}, nil, map[string]int{"ing_ann": 14, "secret_delete": 8, "secret_create": 8}, nil},
+		{"basic-auth", []string{"auth-secret", "auth-realm"}, nil, map[string]int{"ing_ann": 14, "secret_delete": 8, "secret_create": 8}, nil,
+			map[string][]string{"auth-secret": {"auth", "auth", "auth", "auth2", "missing"}}},
 		{"ext-auth", []string{"auth-url", "oauth", "auth-external-placement"}, []string{"auth-proxy", "external-has-lua"}, map[string]int{"ing_ann": 16, "ing_create": 10, "ing_delete": 8, "global_change": 3},
-			map[string]string{"external-has-lua": "true"}},
-		{"tcp", []string{"tcp-service-port"}, nil, map[string]int{"ing_update": 18, "ing_create": 10, "ing_delete": 8}, nil},
-		{"tls", []string{"auth-tls-secret", "secure-crt-secret", "secure-verify-ca-secret", "secure-backends"}, nil, map[string]int{"secret_rotate": 12, "secret_delete": 6, "secret_create": 8, "secret_break": 3}, nil},
-		{"affinity", []string{"affinity", "session-cookie-preserve", "session-cookie-value-strategy", "dynamic-scaling", "slots-min-free", "blue-green-deploy", "initial-weight"}, []string{"dynamic-scaling", "drain-support"}, map[string]int{"ep_scale": 25, "ep_ready": 10, "ep_replace": 12, "pod_term": 6}, nil},
+			map[string]string{"external-has-lua": "true", "auth-proxy": "_front__auth:14415-14419"},
+			map[string][]string{"auth-url": {"http://10.9.9.9:8000/auth", "http://10.9.9.8:8000/auth", "http://10.9.9.7:8001/check", "http://10.9.9.6:8002/x", "http://authhost.local/x", "svc://a/s2:80", "bad::url", "svc://missing:80"}}},
+		{"tcp", []string{"tcp-service-port"}, nil, map[string]int{"ing_update": 18, "ing_create": 10, "ing_delete": 8}, nil, nil},
+		{"tls", []string{"auth-tls-secret", "secure-crt-secret", "secure-verify-ca-secret", "secure-backends"}, nil, map[string]int{"secret_rotate": 12, "secret_delete": 6, "secret_create": 8, "secret_break": 3}, nil, nil},
+		{"affinity", []string{"affinity", "session-cookie-preserve", "session-cookie-value-strategy", "dynamic-scaling", "slots-min-free", "blue-green-deploy", "initial-weight"}, []string{"dynamic-scaling", "drain-support"}, map[string]int{"ep_scale": 25, "ep_ready": 10, "ep_replace": 12, "pod_term": 6}, nil, nil},
 	}
 	mkFocus := func(prop string, f focus, or OracleSet, lagfree func(r *rand.Rand) bool, shards bool) {
 		register(&Profile{Name: "focus-" + f.name, Prop: prop, Weight: 1, Oracles: or,
@@ -188,7 +191,7 @@ func init() {
 				for k, v := range f.weights {
 					w[k] = v
 				}
-				rc.World, rc.Ops = GenerateRun(seed, GenOptions{Sparse: r.IntN(3) == 0, ExcludeIngressKeys: []string{"waf", "cert-signer"}, ForceIngressKeys: f.ing, ForceGlobalKeys: f.glb, InitialGlobal: f.initial,
+				rc.World, rc.Ops = GenerateRun(seed, GenOptions{Sparse: r.IntN(3) != 0, ExcludeIngressKeys: []string{"waf", "cert-signer"}, ForceIngressKeys: f.ing, ForceGlobalKeys: f.glb, InitialGlobal: f.initial, ValueOverrides: f.values,
 					MinOps: mn, MaxOps: mx, QuiesceEvery: pickInt(r, 3, 5), KeysPerRun: pickInt(r, 1, 3), AnnChance: 2, W: w})
 				return rc
 			}})
